@@ -1,9 +1,11 @@
 #!/bin/bash
 # usage: tools/benign_wave.sh <root> [ids...] -- for every <root>/<id>/patchK.diff written by a sub-agent as a behaviour-preserving change:
 # confirm it applies, the 47 unit tests pass with it (in the agent's worktree, build cache reused), then run all 20 quick checks on a scratch copy.
+# Properties run in parallel (JOBS, default 5); CHECK=<snapshot>/check freezes the checker (tools/snap.sh).
 ROOT=$1; shift; DIR="$(cd "$(dirname "$0")/.." && pwd)"
 ids="$@"; [ -z "$ids" ] && ids=$(cd $ROOT && ls -d C*/ | tr -d /)
-for id in $ids; do
+one() {
+  ROOT=$1; DIR=$2; id=$3
   for k in 1 2 3 4; do
     p=$ROOT/$id/patch$k.diff; [ -f "$p" ] || continue
     ( cd $ROOT/$id && git checkout -q -- . && git apply "$p" 2>/dev/null ) || { echo "$id/patch$k DOES-NOT-APPLY"; continue; }
@@ -14,10 +16,13 @@ for id in $ids; do
     (cd "$SCR" && patch -p1 -s < "$p") || { echo "$id/patch$k PATCH-FAILED"; rm -rf "$SCR"; continue; }
     bad=""
     for i in $(seq -w 1 20); do
-      out=$("$DIR/check" C$i --repo "$SCR" --no-evidence --no-fixture 2>&1)
+      out=$("${CHECK:-$DIR/check}" C$i --repo "$SCR" --no-evidence --no-fixture 2>&1)
       if [ $? -ne 0 ]; then bad="$bad C$i"; echo "$out" | grep -E "rule=|BROKEN|extraction|Traceback" | head -4 | cut -c1-330 | sed "s/^/    [$id\/patch$k C$i] /"; fi
     done
     [ -n "$bad" ] && echo "$id/patch$k ALARM:$bad" || echo "$id/patch$k quiet"
     rm -rf "$SCR"
   done
-done
+}
+export -f one
+printf "%s\n" $ids | xargs -P ${JOBS:-5} -I{} bash -c 'one "$0" "$1" "$2" > "$0/$2.wave.log" 2>&1' "$ROOT" "$DIR" {}
+for id in $ids; do cat $ROOT/$id.wave.log; done
